@@ -292,3 +292,27 @@ def closure_ret_in_parent(ctx, clos):
                 out.append(y)
         return tuple(out)
     return rep(rds[0].expr)
+
+
+def enumerate_paths(body, limit=256):
+    """all acyclic entry->return paths (lists of block indices) of a small function, cleanup blocks excluded;
+    None when there are more than `limit` (or the function has a loop on the way)"""
+    out = []
+    succ = body.succ if hasattr(body, "succ") else None
+    def nxt(bi):
+        t = body.blocks[bi].term
+        return [x for x in dict.fromkeys(t.targets) if x is not None and not body.blocks[x].cleanup] if t.targets else []
+    stack = [(0, [0])]
+    while stack:
+        bi, path = stack.pop()
+        t = body.blocks[bi].term
+        if t.kind == "return":
+            out.append(path)
+            if len(out) > limit:
+                return None
+            continue
+        for n in nxt(bi):
+            if n in path:
+                return None
+            stack.append((n, path + [n]))
+    return out
